@@ -101,7 +101,7 @@ def run(ck):
                 names = ['%03d' % i + gen.rand_seq(rng, fc.NAMECH, rng.choice([252, 253, 254, 255, 258, 300, 400])) for i in range(len(names))]
                 ck.count('names longer than 250')
             if k % 11 == 4:     # names are data, never format strings: conversion specifications inside them
-                names = ['%s_%s' % (nm[:12], t) for nm, t in zip(names, ['95%identical', '%s%s%s', '100%d', '%n', '5%x_%c', '%%', '%5.2f', '%p%p', '%ld%%'] * 40)]
+                names = ['%s_%d_%s' % (nm[:10], i, t) for i, (nm, t) in enumerate(zip(names, ['95%identical', '%s%s%s', '100%d', '%n', '5%x_%c', '%%', '%5.2f', '%p%p', '%ld%%'] * 40))]     # kept unique
                 ck.count('names containing % conversions')
             inp = os.path.join(tmp, 'a%d.fa' % k)
             open(inp, 'w').write(gen.fasta(names, rows, rng.choice([60, 60, 13, 1000])))
